@@ -182,8 +182,13 @@ def run_streams(pid, tier, seed, outdir, log, extra_env=None, only=None):
         except subprocess.TimeoutExpired:
             rc, out = 124, "TIMEOUT"
         log.append(out[-20000:])
-        results.append({"test": st["test"], "rc": rc, "wall": time.time() - t0, "names": st["names"], "tail": out[-3000:]})
+        results.append({"test": st["test"], "rc": rc, "wall": time.time() - t0, "names": st["names"], "tail": out[-3000:], "full": out[:200000],
+                        "race": bool(st.get("race")), "n": env.get("HX_N")})
     return results
+
+
+def st_is_race(r):
+    return bool(r.get("race"))
 
 
 def run_driver(outdir, name):
@@ -287,6 +292,11 @@ def main(argv):
         for r in stream_results:
             if r["rc"] != 0:
                 broken.append("stream %s exited %d: %s" % (r["test"], r["rc"], r["tail"][-600:]))
+                if st_is_race(r) and "WARNING: DATA RACE" in r["full"] and pid == "C09":
+                    blk = r["full"][r["full"].index("WARNING: DATA RACE"):][:3000]
+                    findings.append({"property": pid, "signature": "data-race:" + hashlib.sha256("\n".join(l for l in blk.split("\n") if "psa-dhcp/lib" in l)[:400].encode()).hexdigest()[:10],
+                                     "stream": r["names"][0], "what": "the race detector reports a data race between handler goroutines / database calls",
+                                     "ops": ["go1.26.8 test -race -tags verif -run %s (HX_N=%s, VERIF_SEED=%d)" % (r["test"], r.get("n", "?"), seed)], "observed": blk})
                 # a daemon that panics takes the test process down: the history that was being extended is on disk
                 m = re.search(r"^(panic: .*|fatal error: .*)$", r["tail"], re.M)
                 for nm in r["names"]:
